@@ -108,6 +108,11 @@ var restoreCmd = &cobra.Command{
 		if len(args) == 0 {
 			return errors.New("fatal: you must specify path(s) to restore")
 		}
+		for _, arg := range args {
+			if arg == "" {
+				return ErrInvalidArgs
+			}
+		}
 
 		// get staged option
 		isStaged, err := cmd.Flags().GetBool("staged")
